@@ -100,6 +100,17 @@ void sim_yield(int seam)
     {
       if (s.k == 0) { hit = true; } else { s.k--; }
     }
+    // trigger 3: k-th usleep/stdout yield while console command number `after`
+    // (1-based count of lines handed out) is executing; dropped when the
+    // command finishes first -- the user presses Ctrl-C only at a running program.
+    if (s.trigger == 3)
+    {
+      if (h->console_pos > s.after) { s.done = true; continue; }
+      if (h->console_pos == s.after && (seam == SEAM_USLEEP || seam == SEAM_STDOUT))
+      {
+        if (s.k == 0) { hit = true; } else { s.k--; }
+      }
+    }
     if (hit)
     {
       s.done = true;
